@@ -257,13 +257,32 @@ class Gen:
                 targets.append(x)
         if not targets:
             return None
-        x = r.choice(targets)
+        comb = [t for t in targets if specs[t]['op'] in ('zip', 'combine_latest')]
+        x = r.choice(comb) if comb and r.random() < 0.5 else r.choice(targets)
         m = self._new('map', [v], 'int', f='half')
         f1 = self._new('filter', [m], 'int', p='pos')
         f2 = self._new('filter', [f1], 'int', p='small')
         g = self._new('unique', [f2], 'int', maxsize=None, key='ident', hashable=True)
         self.extra.append([g, x])
         return g
+
+    def _late_join(self):
+        """connect() one more (already existing, earlier created) node to an existing union / zip / combine_latest"""
+        r = self.r
+        ids = [n['id'] for n in self.nodes]
+        joins = [n for n in self.nodes if n['op'] in ('zip', 'combine_latest', 'union')]
+        r.shuffle(joins)
+        for x in joins:
+            before = ids[:ids.index(x['id'])]
+            cands = [u for u in before if u not in x['ups'] and self.kind[u] not in ('dict', 'opaque', None)
+                     and not any(e == [u, x['id']] for e in self.extra)]
+            cands = [u for u in cands if {n['id']: n for n in self.nodes}[u]['op'] not in ('sink', 'sink_flush')]
+            if x['op'] == 'union':
+                cands = [u for u in cands if self.kind[u] == self.kind[x['id']] and self.kind[u] != 'any']
+            if cands:
+                self.extra.append([r.choice(cands), x['id']])
+                return x['id']
+        return None
 
     def _feedback(self):
         """u -> union -> map(half) -> guard -> (back to the union)"""
@@ -305,6 +324,8 @@ class Gen:
             self._add(r.choice(self.ops))
         if general_fb:
             self._feedback_general()
+        elif self.allow_feedback and r.random() < 0.12:
+            self._late_join()
         self.allow_collect = saved_collect
         # sinks on every leaf and on some inner nodes
         has_child = set()
